@@ -36,6 +36,11 @@ CHECKS = {
          "Random search over bank configurations x item sequences aimed at every bank boundary against a reference layout model (accept/reject, every item's position/size/address, bits, length, labels), plus invariants checked on every success of the other generators and of the mutated corpus. Exploration of a sampled space (<= 5 banks, <= 14 items in the directed part).",
          "Bank definitions are read back from the assembler's own defs for the invariant monitor (the directed part uses the generated definitions); span order = item order.",
          "6/C06"),
+ "C07": ("exploration",
+         "metamorphic property testing: one structured program rendered as a base text and six variants (re-casing, extra blanks/tabs, comments, rule permutation/re-partitioning, label renaming, all together) that must assemble identically",
+         "Differential run of the real code against itself over generated size-static instruction sets/programs including literal-versus-expression overlaps; the reference matcher is used only to decide which operands may be re-cased. Exploration.",
+         "Blanks are only added, never removed, and never inside a word (documented behaviour / listed finding of C08).",
+         "6/C07"),
  "C08": ("exploration",
          "metamorphic/differential property testing: the same job under the four optimisation-switch combinations x five iteration budgets must agree on success, bits and symbols",
          "Differential run of the real code against itself over generated (size-static and cascading) programs, the whole test corpus and token-mutated corpus programs. No model is trusted; exploration of a sampled program space.",
